@@ -110,6 +110,10 @@ func (s *Sys) deliverRecv(dst *world.Chain, signer world.Account, msgs []sdk.Msg
 				add("C02", "receive-accepted-for-packet-never-sent", fmt.Sprintf("recv %s on %s accepted triple %s which no chain ever sent", what, short[dst.Name], tr))
 				continue
 			}
+			if !samePacket(rm.Packet, t.Bytes) {
+				add("C02", "receive-accepted-for-a-packet-differing-from-the-committed-one", fmt.Sprintf("recv %s on %s: the accepted message carries %s, the source committed %s", what, short[dst.Name], fieldsOf(indepPacket, rm.Packet), fieldsOf(indepPacket, t.Bytes)))
+				add("C01", "receive-accepted-for-a-packet-differing-from-the-committed-one", fmt.Sprintf("recv %s on %s: the accepted message carries %s, the source committed %s", what, short[dst.Name], fieldsOf(indepPacket, rm.Packet), fieldsOf(indepPacket, t.Bytes)))
+			}
 			t.Received = true
 			t.AckAt = dst.Height() + 1
 			rk := string(host.PacketReceiptKey(p.SrcChain, p.DstChain, p.Sequence))
@@ -257,6 +261,13 @@ func (s *Sys) deliverAck(src *world.Chain, signer world.Account, msgs []sdk.Msg,
 	}
 	if t.Acked || len(msgs) > 1 {
 		add("C05", "acknowledgement-processed-twice", fmt.Sprintf("ack %s accepted on %s although it was already processed (or repeated inside the tx)", what, short[src.Name]))
+	}
+	if !samePacket(am.Packet, t.Bytes) {
+		add("C02", "ack-accepted-for-a-packet-differing-from-the-committed-one", fmt.Sprintf("ack %s on %s: the accepted message carries %s, this chain committed %s", what, short[src.Name], fieldsOf(indepPacket, am.Packet), fieldsOf(indepPacket, t.Bytes)))
+		add("C05", "commitment-removed-by-ack-of-a-different-packet", fmt.Sprintf("ack %s on %s: the accepted message carries %s, this chain committed %s", what, short[src.Name], fieldsOf(indepPacket, am.Packet), fieldsOf(indepPacket, t.Bytes)))
+	}
+	if t.AckBytes != nil && fieldsOf(indepAck, am.Acknowledgement) != fieldsOf(indepAck, t.AckBytes) {
+		add("C02", "ack-accepted-with-bytes-differing-from-the-stored-acknowledgement", fmt.Sprintf("ack %s on %s: message carries %s, the counterparty wrote %s", what, short[src.Name], fieldsOf(indepAck, am.Acknowledgement), fieldsOf(indepAck, t.AckBytes)))
 	}
 	// the commitment existed, matched exactly the message's packet, and is gone now
 	canon, _ := p.ABIPack()
